@@ -389,7 +389,7 @@ alac_reader_calc_frames (SF_PRIVATE *psf, ALAC_PRIVATE *plac)
 		return 0 ;
 
 	/* Only count full blocks. */
-	frames = plac->frames_per_block * (blocks - 1) ;
+	frames = (sf_count_t) plac->frames_per_block * (blocks - 1) ;
 
 	alac_seek (psf, SFM_READ, frames) ;
 	alac_decode_block (psf, plac) ;
@@ -608,7 +608,7 @@ alac_seek (SF_PRIVATE *psf, int mode, sf_count_t offset)
 		return 0 ;
 		} ;
 
-	if (offset < 0 || offset > plac->pakt_info->count * plac->frames_per_block)
+	if (offset < 0 || offset > (sf_count_t) plac->pakt_info->count * plac->frames_per_block)
 	{	psf->error = SFE_BAD_SEEK ;
 		return	PSF_SEEK_ERROR ;
 		} ;
@@ -629,7 +629,7 @@ alac_seek (SF_PRIVATE *psf, int mode, sf_count_t offset)
 		return	PSF_SEEK_ERROR ;
 		} ;
 
-	return newblock * plac->frames_per_block + newsample ;
+	return (sf_count_t) newblock * plac->frames_per_block + newsample ;
 } /* alac_seek */
 
 /*==========================================================================================
